@@ -271,6 +271,9 @@ def render(case):
             ins if kw == 'UNIT' else 'UNIT 8 16 4']
     body = []
     if case.get('defs') is not None:
+        if case.get('defs0') is not None:
+            # an earlier, complete DEFS: the later one replaces it, its omitted parameters are the documented defaults again
+            body.append(' '.join(['DEFS'] + [fnum(v) for v in case['defs0']]))
         body.append(defs_line(case))
     if kw not in ('CELL', 'ZERR', 'LATT', 'UNIT', 'HKLF', 'AFIX', 'PART', 'L.S.', 'CGLS'):
         body.append(ins)
@@ -835,6 +838,8 @@ def run(ctx):
                     c = dict(kw=kw, ps=ps, stream='attrs')
                     if k is not None:
                         c['defs'] = gen_defs(ctx.rng, k)
+                        if rep % 3 == 1 or (thorough and ctx.rng.random() < 0.3):
+                            c['defs0'] = gen_defs(ctx.rng, 5)
                     if kw in NAMES:
                         c['names'] = NAMES[kw]
                     # quick: repetitions 0-2 are the lexical styles without suffix, 3-5 the three suffix kinds in canonical
